@@ -166,7 +166,6 @@ theorem construct_keeps_missing (args : List (Attr × Option V)) (m : Mod V B) (
     simp only [hs, bind, Option.bind] at h
     split at h
     · rename_i he
-      simp only at he
       have : m1.missing = [] := List.isEmpty_iff.mp he
       rw [this] at h1
       cases h1
